@@ -51,6 +51,11 @@ def _digest_obj(o):
 # behaviours of Session.tla
 def _mk_trainer(kind, dim, maxc):
     d = None if dim == 0 else dim
+    if maxc == 0:
+        # model value 0: the constructor's own default (unbounded for the Bingham trainers)
+        cls = dict(watson=ComplexWatsonTrainer, cwmm=pd.CWMMTrainer, bingham=ComplexBinghamTrainer, cbmm=pd.CBMMTrainer).get(kind)
+        if cls is not None:
+            return cls(dimension=d)
     if kind == 'watson':
         return ComplexWatsonTrainer(dimension=d, max_concentration=maxc)
     if kind == 'cwmm':
